@@ -279,3 +279,105 @@ def norm_text(s):
         return norm(s).split('\n')[0][:80]
     except Exception:
         return type(s).__name__
+
+
+# ------------------------------------------------------------------------------------- R-CLASS-STATE-WRITERS-OFFLINE
+def r_class_state_writers_offline(ctx, repo, modules=None):
+    """Class-level state of the loader / dumper classes is written by classmethods (the add_* registrars).  None of them may be
+    reachable from code that runs while a document is loaded or dumped (instance methods): a classmethod called from there
+    that stores on `cls` keeps a result of one call where later calls and other classes find it (a derived cache goes stale
+    when a base class registers later; a memo shared through the MRO leaks between sibling classes)."""
+    from . import astutil as A
+    from .srcmodel import walk_function
+    rule = ctx.rule('R-CLASS-STATE-WRITERS-OFFLINE',
+                    'a classmethod that stores on its class (attribute, item or container reached through cls) is never called - '
+                    'directly or through other classmethods - from an instance method: class-level state changes only by explicit '
+                    'registration, never as a side effect of loading or dumping')
+    funcs = [f for f in repo.all_functions(list(modules) if modules else None)] if modules else list(repo.all_functions())
+    cms = [f for f in funcs if f.cls is not None and f.is_classmethod and f.params]
+
+    def writes_class(f):
+        c = f.params[0]
+        aliases = {c}
+        # locals that may hold a container reached from the class: x = cls.attr / cls.__dict__.get(..) / vars(cls)[..]
+        reach = set()
+        for s in walk_function(f.node):
+            if isinstance(s, ast.Assign):
+                v = s.value
+                rooted = any(isinstance(x, ast.Name) and x.id == c for x in ast.walk(v)) and \
+                    isinstance(v, (ast.Attribute, ast.Subscript, ast.Call)) and not \
+                    (isinstance(v, ast.Call) and isinstance(v.func, ast.Attribute) and v.func.attr in ('copy',)) and not \
+                    (isinstance(v, ast.Call) and isinstance(v.func, ast.Name) and v.func.id in ('dict', 'list', 'sorted', 'tuple', 'len', 'isinstance', 'issubclass', 'getattr', 'hasattr'))
+                for t in s.targets:
+                    if isinstance(t, ast.Name) and rooted:
+                        reach.add(t.id)
+                    if isinstance(t, ast.Attribute) and isinstance(t.value, ast.Name) and t.value.id == c and len(s.targets) > 1:
+                        for t2 in s.targets:
+                            if isinstance(t2, ast.Name):
+                                reach.add(t2.id)
+        for mu in A.find_mutations(f.node):
+            root = mu.root if getattr(mu, 'root', None) is not None else mu.receiver
+            tgt = mu.receiver
+            if mu.kind in ('rebind', 'augassign') and isinstance(tgt, ast.Attribute) and isinstance(tgt.value, ast.Name) \
+                    and tgt.value.id == c:
+                return mu
+            if mu.kind not in ('rebind',):
+                r = root
+                while isinstance(r, (ast.Attribute, ast.Subscript, ast.Call)):
+                    r = r.value if not isinstance(r, ast.Call) else r.func
+                if isinstance(r, ast.Name) and (r.id == c or r.id in reach):
+                    return mu
+        for call in A.func_calls(f.node):
+            if isinstance(call.func, ast.Name) and call.func.id == 'setattr' and call.args and isinstance(call.args[0], ast.Name) \
+                    and call.args[0].id == c:
+                class M:
+                    node = call
+                    stmt = call
+                return M
+        return None
+    direct = {}
+    for f in cms:
+        mu = writes_class(f)
+        if mu is not None:
+            direct[f] = mu
+    if len(direct) < 4:
+        raise AnalysisError('R-CLASS-STATE-WRITERS-OFFLINE: only %d classmethods that store on their class found (the six add_* '
+                            'registrars were confirmed by reading)' % len(direct))
+    writer_names = {f.name for f in direct}
+    # classmethods calling writers are writers too
+    changed = True
+    while changed:
+        changed = False
+        for f in cms:
+            if f.name in writer_names:
+                continue
+            for call in A.func_calls(f.node):
+                if isinstance(call.func, ast.Attribute) and call.func.attr in writer_names:
+                    writer_names.add(f.name)
+                    changed = True
+                    break
+    meta = set()
+    for q, ci in (repo.classes.items() if isinstance(repo.classes, dict) else [(c.qualname, c) for c in repo.classes]):
+        if any(isinstance(b, ast.Name) and b.id == 'type' for b in ci.base_exprs):
+            meta.add(ci.name)
+    n = 0
+    for g in funcs:
+        if g.cls is None or g.is_classmethod:
+            continue
+        cname = g.cls.name if hasattr(g.cls, 'name') else str(g.cls)
+        if cname in meta or g.name in ('__init_subclass__',):
+            continue
+        for call in A.func_calls(g.node):
+            if isinstance(call.func, ast.Attribute) and call.func.attr in writer_names:
+                n += 1
+                w = [f for f in direct if f.name == call.func.attr]
+                what = w[0].qualname if w else call.func.attr
+                rule.fail('%s|calls-class-writer|%s' % (g.qualname, call.func.attr), g.module.rel, call.lineno, g.qualname,
+                          norm_text(call),
+                          '%s runs while a document is loaded / dumped and calls the classmethod %s, which stores on the class: the '
+                          'class-level state then depends on what was loaded or dumped before, is inherited by subclasses through '
+                          'attribute lookup and is not refreshed when a base class registers something later' % (g.qualname, what))
+    if not rule.failed:
+        rule.ok('package', '%d classmethods store on their class (%s); no instance method calls one of them'
+                % (len(direct), ', '.join(sorted(f.name for f in direct))))
+    return rule
